@@ -3,49 +3,30 @@ import BtcVerif.Spec.Messages
 
 namespace BtcVerif.Generated.Messages
 
-/-- `msg_classes`: (command, class name) in order -/
-def msgClasses : List (List Nat × String) := [
-  ([118, 101, 114, 115, 105, 111, 110], "msg_version"),
-  ([118, 101, 114, 97, 99, 107], "msg_verack"),
-  ([97, 100, 100, 114], "msg_addr"),
-  ([97, 108, 101, 114, 116], "msg_alert"),
-  ([105, 110, 118], "msg_inv"),
-  ([103, 101, 116, 100, 97, 116, 97], "msg_getdata"),
-  ([110, 111, 116, 102, 111, 117, 110, 100], "msg_notfound"),
-  ([103, 101, 116, 98, 108, 111, 99, 107, 115], "msg_getblocks"),
-  ([103, 101, 116, 104, 101, 97, 100, 101, 114, 115], "msg_getheaders"),
-  ([104, 101, 97, 100, 101, 114, 115], "msg_headers"),
-  ([116, 120], "msg_tx"),
-  ([98, 108, 111, 99, 107], "msg_block"),
-  ([103, 101, 116, 97, 100, 100, 114], "msg_getaddr"),
-  ([112, 105, 110, 103], "msg_ping"),
-  ([112, 111, 110, 103], "msg_pong"),
-  ([114, 101, 106, 101, 99, 116], "msg_reject"),
-  ([109, 101, 109, 112, 111, 111, 108], "msg_mempool") ]
+/-- the command strings of the message classes / `messagemap` keys of the working tree (sorted) -/
+def commands : List (List Nat) := [
+  [97, 100, 100, 114],
+  [97, 108, 101, 114, 116],
+  [98, 108, 111, 99, 107],
+  [103, 101, 116, 97, 100, 100, 114],
+  [103, 101, 116, 98, 108, 111, 99, 107, 115],
+  [103, 101, 116, 100, 97, 116, 97],
+  [103, 101, 116, 104, 101, 97, 100, 101, 114, 115],
+  [104, 101, 97, 100, 101, 114, 115],
+  [105, 110, 118],
+  [109, 101, 109, 112, 111, 111, 108],
+  [110, 111, 116, 102, 111, 117, 110, 100],
+  [112, 105, 110, 103],
+  [112, 111, 110, 103],
+  [114, 101, 106, 101, 99, 116],
+  [116, 120],
+  [118, 101, 114, 97, 99, 107],
+  [118, 101, 114, 115, 105, 111, 110] ]
 
-/-- `messagemap` items in insertion order -/
-def messagemap : List (List Nat × String) := [
-  ([118, 101, 114, 115, 105, 111, 110], "msg_version"),
-  ([118, 101, 114, 97, 99, 107], "msg_verack"),
-  ([97, 100, 100, 114], "msg_addr"),
-  ([97, 108, 101, 114, 116], "msg_alert"),
-  ([105, 110, 118], "msg_inv"),
-  ([103, 101, 116, 100, 97, 116, 97], "msg_getdata"),
-  ([110, 111, 116, 102, 111, 117, 110, 100], "msg_notfound"),
-  ([103, 101, 116, 98, 108, 111, 99, 107, 115], "msg_getblocks"),
-  ([103, 101, 116, 104, 101, 97, 100, 101, 114, 115], "msg_getheaders"),
-  ([104, 101, 97, 100, 101, 114, 115], "msg_headers"),
-  ([116, 120], "msg_tx"),
-  ([98, 108, 111, 99, 107], "msg_block"),
-  ([103, 101, 116, 97, 100, 100, 114], "msg_getaddr"),
-  ([112, 105, 110, 103], "msg_ping"),
-  ([112, 111, 110, 103], "msg_pong"),
-  ([114, 101, 106, 101, 99, 116], "msg_reject"),
-  ([109, 101, 109, 112, 111, 111, 108], "msg_mempool") ]
-
-def protoVersion : Nat := 60002
-def caddrTimeVersion : Nat := 31402
-def ipv4Compat : List Nat := [0, 0, 0, 0, 0, 0, 0, 0, 0, 0, 255, 255]
-def maxSize : Nat := 33554432
+-- evidence only (not compared):
+--   bitcoin.net.PROTO_VERSION = 60002
+--   bitcoin.net.CADDR_TIME_VERSION = 31402
+--   bitcoin.net.IPV4_COMPAT = b'\x00\x00\x00\x00\x00\x00\x00\x00\x00\x00\xff\xff'
+--   bitcoin.core.serialize.MAX_SIZE = 33554432
 
 end BtcVerif.Generated.Messages
